@@ -1952,7 +1952,7 @@ func (m *Machine) rangeIter(x Value, t types.Type, site *ssa.Range) Value {
 	for i := range order {
 		order[i] = i
 	}
-	if m.Cfg.MapPerms && n > 1 && site != nil && strings.Contains(m.Prog.Fset.Position(site.Pos()).Filename, "zz_vf_") {
+	if m.Cfg.MapPerms && n > 1 && site != nil && (strings.Contains(m.Prog.Fset.Position(site.Pos()).Filename, "zz_vf_") || strings.Contains(m.Prog.Fset.Position(site.Pos()).Filename, "/internal/zzvfskel/")) {
 		// harness code: its own map loops are order-insensitive by construction
 	} else if m.Cfg.MapPerms && n > 1 && site != nil && !m.Cfg.PermsInInit && strings.HasPrefix(site.Parent().Name(), "init") {
 		// package initialisers are permuted only by the harness dedicated to them
